@@ -255,6 +255,9 @@ func (env *Env) ident(name string) (Val, error) {
 		if i, err := strconv.Atoi(name[6:]); err == nil && i < len(env.result.Elems) {
 			return env.result.Elems[i], nil
 		}
+		if name == "result0" && env.result.T != "" {
+			return env.result, nil // a single result, for functions that have a parameter called result
+		}
 	}
 	if env.fr != nil && env.at != nil {
 		if sv, isAddr, ok := env.fr.lookupNameAt(name, env.at, env.atEnd, env.maxOrd); ok {
